@@ -34,7 +34,7 @@ def dtorId : Nat := 1000
 
 mutual
 inductive Cls
-  | mk (bases : Bases) (dctor : Option SM) (octor : Bool) (cctor mctor dtor : Option SM) (fields : Fields) (vfns : List VDecl)
+  | mk (bases : Bases) (dctor : Option SM) (octor : Bool) (cctor mctor dtor : Option SM) (massign : Bool) (fields : Fields) (vfns : List VDecl)
 inductive Bases
   | nil
   | cons (c : Cls) (vis : Nat) (virt : Bool) (rest : Bases)
@@ -54,13 +54,13 @@ def ownDecls (vfns : List VDecl) (dtor : Option SM) : List VDecl :=
     | none => [])
 
 def Cls.decls : Cls → List VDecl
-  | .mk _ _ _ _ _ dtor _ vfns => ownDecls vfns dtor
+  | .mk _ _ _ _ _ dtor _ _ vfns => ownDecls vfns dtor
 
 def Cls.bases : Cls → Bases
-  | .mk b _ _ _ _ _ _ _ => b
+  | .mk b _ _ _ _ _ _ _ _ => b
 
 def Cls.dtor : Cls → Option SM
-  | .mk _ _ _ _ _ d _ _ => d
+  | .mk _ _ _ _ _ d _ _ _ => d
 
 /-- one step of `get_virtual_funcs`: drop the inherited entries this class re-declares, then add
 this class's own virtual functions (declared virtual, or virtual because they override) -/
@@ -70,7 +70,7 @@ def mergeV (inh : List VF) (ds : List VDecl) : List VF :=
 
 mutual
 def vfuncs : Cls → List VF
-  | .mk bases _ _ _ _ dtor _ vfns => mergeV (vfuncsB bases) (ownDecls vfns dtor)
+  | .mk bases _ _ _ _ dtor _ _ vfns => mergeV (vfuncsB bases) (ownDecls vfns dtor)
 def vfuncsB : Bases → List VF
   | .nil => []
   | .cons c _ _ rest => vfuncs c ++ vfuncsB rest
@@ -93,7 +93,7 @@ def gate (sm : SM) (minVis : Nat) : Gate :=
 
 mutual
 def isDestructibleV : Cls → Nat → Bool
-  | .mk bases _ _ _ _ dtor fields _, minVis =>
+  | .mk bases _ _ _ _ dtor _ fields _, minVis =>
     match (match dtor with | some sm => gate sm minVis | none => Gate.implicit) with
     | .no => false
     | .yes => true
@@ -115,7 +115,7 @@ def isDestructible (c : Cls) : Bool := isDestructibleV c 0
 
 mutual
 def isDefaultV : Cls → Nat → Bool
-  | .mk bases dctor octor cctor mctor _ fields _, minVis =>
+  | .mk bases dctor octor cctor mctor _ _ fields _, minVis =>
     match (match dctor with
            | some sm => gate sm minVis
            | none => if octor || cctor.isSome || mctor.isSome then Gate.no else Gate.implicit) with
@@ -144,10 +144,10 @@ def ownDtorOk (dtor : Option SM) (minVis : Nat) : Bool :=
 
 mutual
 def isCopyV : Cls → Nat → Bool
-  | .mk bases _ _ cctor mctor dtor fields _, minVis =>
+  | .mk bases _ _ cctor mctor dtor massign fields _, minVis =>
     match (match cctor with
            | some sm => gate sm minVis
-           | none => if mctor.isSome then Gate.no else Gate.implicit) with
+           | none => if mctor.isSome || massign then Gate.no else Gate.implicit) with
     | .no => false
     | .yes => true
     | .implicit => ownDtorOk dtor minVis && copyB bases && copyF fields
